@@ -158,6 +158,7 @@ class FnTr(ExprMixin, MethodMixin, StmtMixin):
         if owner in NEWTYPES: return NEWTYPES[owner]
         if owner == 'BddNode': return NODE
         if owner in self.tr.crate.enums: return ('enum', self.tr.register_enum(self.tr.crate.enums[owner], self))
+        if owner in ('str', 'String'): return STR
         return ('struct', self.struct_key(owner, line))
 
     def resolve_variant(self, names):
@@ -237,6 +238,9 @@ class FnTr(ExprMixin, MethodMixin, StmtMixin):
                 # an unconstrained type parameter becomes an implicit Lean type argument
                 self.generics[g] = ('tparam', g)
                 self.tparams.append(g)
+            elif len(bounds) == 1 and bounds[0].kind == 'TPath' and bounds[0].segs[-1][0] == 'IntoIterator' and bounds[0].segs[-1][1]:
+                # `T: IntoIterator<Item = X>`: a materialised sequence of X
+                self.generics[g] = ('iter', self.conv(bounds[0].segs[-1][1][0]))
             elif len(bounds) == 1 and bounds[0].kind == 'TPath' and bounds[0].segs[-1][0] == 'ToString':
                 self.generics[g] = ('tparam', g)
                 self.tparams.append(g + '] [ToString ' + g)
@@ -294,11 +298,16 @@ class Translator:
         self.pending = {}       # group id -> finished members waiting for the root
         self.enum_variants = {}  # enum key -> {variant: (kind, [(field name or None, type)])}
         self.consts_done = {}
+        self.phase = 1
+        self.batch_of = {}      # FnItem -> batch in which it was translated
 
     # -- structs
     def register_struct(self, st, local_to=None, ctx=None):
         if st.fields is None:
-            raise R2LError('tuple struct `%s` is not supported as a product type' % st.name, st.file, st.line)
+            if not st.tuple_fields:
+                raise R2LError('unit struct `%s` is not supported' % st.name, st.file, st.line)
+            # a tuple struct is the product of its positional fields (field names "0", "1", …)
+            st.fields = [(str(k), t) for k, t in enumerate(st.tuple_fields)]
         if local_to is not None:
             key = local_to.item.qual() + '::' + st.name
             local_to.local_structs[st.name] = key
@@ -398,7 +407,8 @@ class Translator:
             base = item.name
         base = lean_ident(base)
         prev = self.used_names.get(base)
-        if base in ('and', 'or', 'xor', 'not', 'iff', 'imp', 'cond', 'id', 'max', 'min', 'compare', 'toString', 'ite', 'dite', 'bind'):
+        if base in ('and', 'or', 'xor', 'not', 'iff', 'imp', 'cond', 'id', 'max', 'min', 'compare', 'toString', 'ite', 'dite', 'bind') or \
+                (base == 'and_not' and item.file.endswith('op_function.rs')):
             prev = 'a name of Lean core'      # never define these inside the generated namespace
         if prev is None or prev is item:
             self.used_names[base] = item
@@ -406,8 +416,12 @@ class Translator:
         stem = os.path.basename(item.file)[:-3].lstrip('_')
         if stem.startswith('impl_'): stem = stem[5:]
         alt = stem + '__' + base
-        if self.used_names.get(alt, item) is not item:
-            raise R2LError('cannot find a unique Lean name for %s' % item.qual(), item.file, item.line)
+        k = 1
+        while self.used_names.get(alt, item) is not item:
+            k += 1
+            alt = '%s__%s_%d' % (stem, base, k)     # further impls of the same method for other receiver types
+            if k > 9:
+                raise R2LError('cannot find a unique Lean name for %s' % item.qual(), item.file, item.line)
         self.used_names[alt] = item
         return alt
 
@@ -475,6 +489,9 @@ class Translator:
         return self.translate(item)
 
     def translate(self, item):
+        key = (item.owner, item.name)
+        if key in SHIM_REJECT:
+            raise R2LError('%s::%s cannot be translated: %s' % (key[0], key[1], SHIM_REJECT[key]), item.file, item.line, item.qual())
         name = self.lean_name(item)
         sig = None
         text = None
@@ -513,6 +530,7 @@ class Translator:
             text = self.render(ctx, sig, lines)
             break
         self.sigs[item] = sig
+        self.batch_of[item] = self.phase
         row = (item.qual(), sig.lean, 'pure' if not sig.monadic else ('monadic+fuel' if sig.fuel else 'monadic'),
                text.count('\n') + 1, item.file, item.line)
         gid = self.group_of.get(item)
